@@ -36,7 +36,7 @@ P = {
     "C08": dict(cat="exploration", tech="runtime monitor: differential runs at the engine boundary (biases {A,B} vs {A} and {B}; time-step factor n vs 1) on imposed histories",
                 text="Sets of biases {A,B,...} run together and separately on the same imposed history: energies and atomic forces of the joint run equal the sums of the separate runs, and a bias with applyBias off / zero strength contributes nothing. Biases and variables with timeStepFactor n: asleep between their steps (no value update, no force), awake steps apply n times the instantaneous force, impulse over a window equals the factor-1 impulse of the sampled steps; runs starting off-multiple (restart, setstep).", note="a variable with factor n under a bias whose factor is not a multiple of n is computed off its schedule: known finding (manual allows the combination)"),
     "C09": dict(cat="exploration", tech="libFuzzer + ASan/UBSan on read_config_string (hermetic proxy); enumerated keyword/brace/value mutations that must be rejected; documented layout rewrites compared bitwise",
-                text="libFuzzer on read_config_string with a dictionary harvested from the sources (quick: >= 10^4 executions, thorough: 15 min x 16 workers); every generated template under enumerated damage classes (unknown / misspelt keyword, unbalanced braces, missing or unreadable values, trailing junk in lists) must be rejected with an error and leave the module usable; documented layout rewrites (blank lines, indentation, comments, CRLF, blocks joined on one line, brace on the last value line, boolean synonyms, keyword case) must produce a bit-identical model (values, energies, forces after steps).", note="fuzz corpus is seeded from the generated templates; crashes are keyed by sanitizer kind and innermost Colvars frame"),
+                text="libFuzzer on read_config_string with a dictionary harvested from the sources (quick: 8 workers x 2000 executions, thorough: 16 x 25000); accepted configurations under the damage classes the property names (misspelt keyword, keyword in a block where it is not valid, one brace deleted or added, value of a non-boolean keyword deleted, number replaced by an alphabetic token) must be rejected with an error and leave the module usable; documented layout rewrites (blank lines, indentation, comments, CRLF, blocks joined on one line, brace on the last value line, boolean synonyms, keyword case) must produce a bit-identical model (values, energies, forces after steps).", note="fuzz corpus is seeded from the generated templates; crashes are keyed by sanitizer kind and innermost Colvars frame"),
     "C10": dict(cat="exploration", tech="ASan/UBSan processes over a (object type x keyword x boundary value) grid, one process per case; differential test of surviving objects after a rejected configuration",
                 text="Every keyword (occurring in a template or harvested from the get_keyval calls of the class that parses the block) x {0, -1, 1, 2, 2^31-1, 2^31, 2^32, 2^61, 2^63-1, 1e30, 1e308, nan, inf, -inf, empty, removed, list/vector length errors, bad atoms, missing files, swapped boundaries} plus seeded pairs, one ASan/UBSan process per case through init, steps, state and output writes: must end with success or an error, never a signal, sanitizer report, escaping exception, unbounded allocation or hang. Survivors: after a rejected configuration fed through cv config (including colvars that use the deprecated wall keywords), the previously defined objects behave bit-identically to a control that never saw it, and a later valid configuration is accepted in both.", note="quick runs a stratified sample (about 3800 cases), thorough about 40000; hang = 120 s watchdog re-run once at 10x before it is reported"),
     "C11": dict(cat="fault_enumeration", tech="strace syscall-level kill injection + LD_PRELOAD partial-write shim over every file-system call of a state write; exhaustive truncation and bit flips of valid states under ASan; libFuzzer on state input; typed round trip through memory_stream",
